@@ -30,6 +30,7 @@ type c04EngReq struct {
 	Off    int64     `json:"off,omitempty"`
 	Tamper string    `json:"tamper,omitempty"`
 	Arg    int       `json:"arg,omitempty"`
+	Shape  string    `json:"shape,omitempty"`
 }
 
 type c04EngCase struct {
@@ -115,15 +116,25 @@ func c04EngInterp(t *testing.T, c c04EngCase) (v kit.Verdict) {
 			// wire form
 			ts := now.Unix() + rq.Off
 			sr := rq.Req
-			sr.Path = c04EngPath
-			sr.ReqURI = false
+			if !sr.ReqURI {
+				sr.Path = c04EngPath
+			}
 			wire := c04Sign(sr, ts)
+			if sr.ReqURI {
+				// the route is reached through the request line, the signature covers X-Request-Uri
+				wire.URLPath = c04EngPath
+				classes["x-request-uri"] = true
+			}
 			tampered := false
 			if !rq.Signed {
 				wire.NoHeader = true
-			} else if rq.Tamper != "" && rq.Tamper != "path" {
+			} else if rq.Tamper != "" && (rq.Tamper != "path" || sr.ReqURI) {
 				wire, tampered = c04Tamper(wire, sr, ts, rq.Tamper, rq.Arg)
+				if tampered {
+					wire.Shape = rq.Shape
+				}
 			}
+			classes["framing:"+wire.Framing] = true
 			req := c04HTTPRequest(wire)
 
 			// JWT gate
@@ -217,11 +228,14 @@ func c04EngInterp(t *testing.T, c c04EngCase) (v kit.Verdict) {
 						return
 					}
 				}
-				wantBody := sr.Body
+				wantBody := string(sr.plainBody())
 				if !c.Sig {
 					wantBody = string(wire.Body) // no content-security gate: the body is passed as sent
 				}
-				if string(seen.body) != wantBody {
+				if c.Sig && sr.CType == 1 && wire.Framing == "chunked" && len(wire.Body) > 0 {
+					// decryption of chunked uploads is outside the statement
+					classes["chunked+encrypted(body unjudged)"] = true
+				} else if string(seen.body) != wantBody {
 					fail = fmt.Sprintf("%s: handler read body %q, original %q", desc, seen.body, wantBody)
 					return
 				}
@@ -289,6 +303,7 @@ func c04EngGen(rt *rapid.T) c04EngCase {
 			if rapid.IntRange(0, 9).Draw(rt, "tamper?") < 3 {
 				rq.Tamper = rapid.SampledFrom(c04Tampers).Draw(rt, "tamper")
 				rq.Arg = rapid.IntRange(0, 1000).Draw(rt, "arg")
+				rq.Shape = rapid.SampledFrom(c04Shapes).Draw(rt, "shape")
 			}
 			tolS := c.TolS
 			rq.Off = rapid.SampledFrom([]int64{0, 0, 0, 0, tolS, -tolS, tolS + 1, -tolS - 1, 86400 * 3}).Draw(rt, "off")
